@@ -487,3 +487,55 @@ example : C06.routeHTTPm gwC03 (fun _ => true)
     (C06.PatState.init.run (C06.validC gwC03) [.watch [116], .update [116] chainDesc]).static [71, 69, 84] [47, 120] =
       .status C06.codeNotFound := by decide
 end
+
+/-! ### routing.buildPattern: the glue that decides whether a template goes through the parser -/
+
+/-- **`buildPattern` is exactly `Parse ▸ Compile ▸ NewPattern`.** For every byte string: the model of
+    `routing.buildPattern` (Bridge.lean, statement by statement) returns a pattern iff the text is `Valid` — derivable
+    in the relaxed grammar with at most one `**` (decided by `validTemplateB`, the oracle of the `build` lines) — and
+    then the pattern is `NewPattern` of `Compile` of the grammar's abstract syntax of the text (unique:
+    `C20_grammar_unambiguous_relaxed`); it is the `valid`/pattern instance `c03Pattern gwC03` of the routing chain
+    (`C20_route_chain`). There is no other path to a pattern in the model, and `C20_facts_buildPattern` pins the same
+    for the source. -/
+theorem C20_buildPattern_is_parse_compile (s : Bytes) :
+    ((buildPatternM s).isSome = true ↔ ∃ t, DerivesRelaxed s t ∧ C03.deepCount (tmplC03 t).segs ≤ 1) ∧
+    ((buildPatternM s).isSome = validTemplateB s) ∧
+    (∀ t, DerivesRelaxed s t → buildPatternM s =
+        C03.newPattern 1 (C03.compile (tmplC03 t)).opcodes (C03.compile (tmplC03 t)).pool (C03.compile (tmplC03 t)).verb) ∧
+    buildPatternM s = C06.c03Pattern gwC03 s := by
+  refine ⟨buildPatternM_isSome_iff s, ?_, buildPatternM_of_derives s, buildPatternM_eq_c03Pattern s⟩
+  have h1 := buildPatternM_isSome_iff s
+  have h2 := validTemplateB_iff s
+  cases ha : (buildPatternM s).isSome <;> cases hb : validTemplateB s
+  · rfl
+  · exact absurd (h1.mpr (h2.mp hb)) (by simp [ha])
+  · exact absurd (h2.mpr (h1.mp ha)) (by simp [hb])
+  · rfl
+
+/-- Facts tie for the glue (regenerated by go/ast from routing/pattern_router.go on every run): `buildPattern` consists
+    of six statements; its only calls are `httprule.Parse`, `compiler.Compile`, `runtime.NewPattern` and the two
+    `fmt.Errorf` of the error exits (no `strings.Split`, no helper, no manual op construction); the pattern value is
+    assigned once, from `runtime.NewPattern(tp.Version, tp.OpCodes, tp.Pool, tp.Verb)` with `tp := compiler.Compile()`
+    and `compiler` from `httprule.Parse(route)`; the only return of a non-zero pattern is `pattern`; `httprule` is the
+    gwbased package. A bypass of the parser breaks this theorem even for inputs no case line reaches. -/
+theorem C20_facts_buildPattern :
+    GB.Generated.c20BpCalls = ["httprule.Parse", "fmt.Errorf", "compiler.Compile", "runtime.NewPattern", "fmt.Errorf"] ∧
+    GB.Generated.c20BpReturns = ["runtime.Pattern{}", "runtime.Pattern{}", "pattern"] ∧
+    GB.Generated.c20BpAssigns = ["compiler,err:=httprule.Parse(route)", "tp:=compiler.Compile()",
+      "pattern,routeErr:=runtime.NewPattern(tp.Version, tp.OpCodes, tp.Pool, tp.Verb)"] ∧
+    GB.Generated.c20BpStmts = 6 ∧
+    GB.Generated.c20BpParserImport = "github.com/renbou/grpcbridge/internal/httprule/gwbased" := by
+  decide
+
+/-- Negative witness for the seeded fast path (C20-m5: plain literal routes are assembled from
+    `strings.Split(route[1:], "/")` without calling the parser): `/v1/name}` — `/v1/{name}` with the opening brace
+    lost — becomes a pattern although it is not derivable, while `buildPattern` proper rejects it. -/
+theorem C20_buildPattern_fastpath_fails :
+    (buildPatternFast [47, 118, 49, 47, 110, 97, 109, 101, 125]).isSome = true ∧
+    (buildPatternM [47, 118, 49, 47, 110, 97, 109, 101, 125]).isSome = false ∧
+    ¬ ∃ t, DerivesRelaxed [47, 118, 49, 47, 110, 97, 109, 101, 125] t := by
+  refine ⟨by decide, by decide, ?_⟩
+  intro h
+  have := (C20_recogniser_exact [47, 118, 49, 47, 110, 97, 109, 101, 125]).2.mpr h
+  revert this
+  decide
